@@ -128,8 +128,101 @@ def radial_samples(rec, cfg, nsamp=24):
     return out, field, o, g, iso
 
 
+# ---------------------------------------------------------------- a molecule / atom in its crystal: listings of one P1 crystal
+CUNIT = 200.0                  # coordinates of crystal listings in units of 0.005 A
+CSHIFTS = [[37, -211, 94], [-640, 15, 333], [5, 5, -700], [1200, -900, 411]]       # = Descriptor!CShifts
+
+
+def capply(c, word):
+    """Mirror of Descriptor!CApplyWord (used to build the variant listings; TLC certifies them)."""
+    cell = list(c["cell"])
+    atoms = [{"z": a["z"], "p": list(a["p"])} for a in c["atoms"]]
+    for tag, arg in word:
+        if tag == "S":
+            for a in atoms:
+                a["p"] = [a["p"][k] + CSHIFTS[arg - 1][k] for k in range(3)]
+        elif tag == "P":
+            atoms[arg - 1], atoms[arg] = atoms[arg], atoms[arg - 1]
+        elif tag == "X":
+            ax = arg - 1
+            atoms = atoms + [{"z": a["z"], "p": [a["p"][k] + (cell[k] if k == ax else 0) for k in range(3)]} for a in atoms]
+            cell[ax] *= 2
+    return {"cell": cell, "atoms": atoms}
+
+
+def crystal_recipe(rng):
+    """A bonded cluster of 3-5 atoms alone in an orthorhombic P1 cell of 4.5-7.5 A edges, every atom at least 2.4 A away from
+    the atoms of the neighbouring cells."""
+    import math
+    for _ in range(400):
+        n = rng.randint(3, 5)
+        atoms = []
+        while len(atoms) < n:
+            if atoms:
+                b = rng.choice(atoms)[1]
+                v = [rng.gauss(0, 1) for _ in range(3)]
+                s = math.sqrt(sum(x * x for x in v))
+                dd = rng.uniform(0.95, 1.55)
+                p = [b[c] + v[c] / s * dd for c in range(3)]
+            else:
+                p = [rng.uniform(0.5, 2.5) for _ in range(3)]
+            if all(sum((p[c] - a[c]) ** 2 for c in range(3)) > 0.8 for _, a in atoms):
+                atoms.append((rng.choice([1, 6, 7, 8]), p))
+        ext = [max(a[1][c] for a in atoms) - min(a[1][c] for a in atoms) for c in range(3)]
+        cell = [int(round((ext[c] + rng.uniform(2.9, 4.2)) * CUNIT)) for c in range(3)]
+        if not all(900 <= x <= 1500 for x in cell):
+            continue
+        lst = {"cell": cell, "atoms": [{"z": z, "p": [int(round(x * CUNIT)) for x in p]} for z, p in atoms]}
+        ok = True
+        for a in lst["atoms"]:
+            for b in lst["atoms"]:
+                for h in [(i, j, k) for i in (-1, 0, 1) for j in (-1, 0, 1) for k in (-1, 0, 1) if (i, j, k) != (0, 0, 0)]:
+                    d2 = sum((a["p"][c] - b["p"][c] - h[c] * cell[c]) ** 2 for c in range(3))
+                    if d2 < 480 ** 2:
+                        ok = False
+        if ok:
+            return lst
+    return None
+
+
+def drive_crystal(rec):
+    import numpy as np
+    from chmpy.crystal import Crystal, UnitCell, SpaceGroup, AsymmetricUnit
+    from chmpy.core.element import Element
+    t = {"lmax": rec["lmax"], "kind": rec["kind"], "channel": rec["channel"], "base": rec["base"], "poses": [], "radial": [], "oob": [],
+         "meta": {"recipe": rec, "source": "crystal-listings", "nontrivial": True,
+                  "impl_call": "Crystal(P1, %d atoms).%s(l_max=%d, with_property=%r) on %d listings" % (
+                      len(rec["base"]["atoms"]), "molecular_shape_descriptors" if rec["kind"] == "crystal-mol" else "atomic_shape_descriptors",
+                      rec["lmax"], None if rec["channel"] == "none" else rec["channel"], len(rec["words"]) + 1)}}
+    ref = None
+    for w in [[]] + rec["words"]:
+        lst = capply(rec["base"], w)
+        ps = {"word": w, "cell": lst["cell"], "atoms": lst["atoms"], "exc": "", "rows": []}
+        try:
+            cell = np.array(lst["cell"], dtype=float) / CUNIT
+            uc = UnitCell.orthorhombic(*cell)
+            frac = np.array([a["p"] for a in lst["atoms"]], dtype=float) / CUNIT / cell[None, :]
+            cr = Crystal(uc, SpaceGroup(1), AsymmetricUnit([Element.from_atomic_number(a["z"]) for a in lst["atoms"]], frac))
+            kw = {} if rec["channel"] == "none" else {"with_property": rec["channel"]}
+            fn = cr.molecular_shape_descriptors if rec["kind"] == "crystal-mol" else cr.atomic_shape_descriptors
+            d = np.asarray(fn(l_max=rec["lmax"], **kw), dtype=float)
+            if d.ndim != 2 or not np.all(np.isfinite(d)):
+                raise FloatingPointError("descriptor table")
+            if ref is None:
+                ref = float(np.max(np.abs(d)))
+            ps["rows"] = [[int(round(float(x) / ref * 1048576)) if abs(x) / ref < 1000 else 2 ** 30 for x in row] for row in d]
+        except Exception as e:
+            ps["exc"] = type(e).__name__
+        t["poses"].append(ps)
+        if ref is None:
+            break
+    return t
+
+
 def drive(rec):
     import numpy as np
+    if rec["kind"] in ("crystal-mol", "crystal-atom"):
+        return drive_crystal(rec)
     base = rec["base"]
     t = {"lmax": rec["lmax"], "kind": rec["kind"], "channel": rec["channel"], "base": base, "poses": [], "radial": [], "oob": [],
          "meta": {"recipe": rec, "source": rec.get("src", "tlc-words"), "nontrivial": True,
@@ -259,6 +352,16 @@ def run(ctx):
                     recs.append({"lmax": lmax, "kind": kind, "channel": channel, "words": ws,
                                  "base": {"inner": inner, "outer": outer if kind == "stockholder" else []},
                                  "bounds": [0.15, 9.0], "probes": [[0.02, 0.12], [14.0, 19.0]] if kind != "stockholder" else []})
+    # molecules and atoms in their crystal: the descriptors belong to the arrangement, not to how the cell is listed
+    cwords = [[["S", 1]], [["S", 3]], [["P", 1]], [["X", 1]], [["X", 3]], [["S", 2], ["P", 2]], [["X", 2], ["S", 4]], [["P", 1], ["X", 1]]]
+    for i in range(ctx.pick(6, 60)):
+        lst = crystal_recipe(rng)
+        if lst is None:
+            continue
+        for kind in ("crystal-mol", "crystal-atom"):
+            ch = ("none", "d_norm")[(i + len(kind)) % 2]
+            ws = [w for w in rng.sample(cwords, ctx.pick(3, 6)) if all(not (tag == "P" and arg >= len(lst["atoms"])) for tag, arg in w)]
+            recs.append({"lmax": rng.choice([4, 6, 9]), "kind": kind, "channel": ch, "words": ws, "base": lst})
     traces = pool_map(drive, recs, chunksize=1)
     ctx.notes["descriptor_evaluations"] = sum(len(t["poses"]) for t in traces)
     ctx.validate("trace/Trace_Descriptor.tla", traces, timeout=1800)
